@@ -19,10 +19,10 @@ CHECK_DEADLOCK FALSE
     return cfg
 
 
-def drive_and_validate(run, cases, shards):
+def drive_and_validate(run, cases, shards, extra=()):
     cases_p, trace_p = run.path("cases.ndjson"), run.path("trace.ndjson")
     core.write_ndjson(cases_p, cases)
-    core.vharness(["c05", "--cases", cases_p, "--trace", trace_p], threads=12)
+    core.vharness(["c05", "--cases", cases_p, "--trace", trace_p] + list(extra), threads=12)
     events = core.read_ndjson(trace_p)
     consumed, verdicts = core.validate_trace("trace/Trace_C05.tla", "trace/Trace_C05.cfg", trace_p, shards=shards)
     run.judge(events, verdicts, consumed)
@@ -60,9 +60,13 @@ def replay(payload):
     run = Run("C05", "quick")
     ev = payload["event"]
     case = {k: ev[k] for k in ("kind", "implied", "nested", "layout")}
-    events = drive_and_validate(run, [case], shards=1)
-    print("input:   ", events[0]["asn"], "(EXTENSIBILITY IMPLIED)" if ev["implied"] else "")
-    print("observed:", {k: events[0][k] for k in ("status", "non_exhaustive", "obs", "ir_ext", "detail")})
+    # the case is compiled next to a neighbour module with the opposite extensibility default,
+    # once with each alphabetical order of the two module names (state leaking between modules)
+    companion = dict(case, implied=not case["implied"])
+    for flip in ("0", "1"):
+        events = drive_and_validate(run, [case, companion], shards=1, extra=["--flip", flip])
+        print("input:   ", events[0]["asn"], "(EXTENSIBILITY IMPLIED)" if ev["implied"] else "", "module order flip=" + flip)
+        print("observed:", {k: events[0][k] for k in ("status", "non_exhaustive", "obs", "ir_ext", "detail")})
     for what, e in run.violations:
         print("MISMATCH:", what)
     return 1 if run.violations else 0
